@@ -218,6 +218,41 @@ func sig(path []string, msg string) string {
 	return kind + ": " + strings.TrimSpace(m)
 }
 
+// longHistories: counters must not wrap - after N wrong attempts (N around 2^8 and 2^16) against one sent
+// code even the right code is rejected; after N refused sends the refusal stands.
+func longHistories(c *seq.Ctx) {
+	for _, mock := range []bool{true, false} {
+		for _, maxVerify := range []int{1, 3} {
+			for _, n := range []int{254, 255, 256, 257, 511, 512, 65535, 65536, 65537} {
+				cf := cfg{4, maxVerify, 2, true, false, true, mock}
+				cp := &capture{last: map[pair]string{}}
+				l := vcode.NewSimpleLogic(cf.config(), cp, nil)
+				p := pairs[0]
+				hash, err := l.SendSMSCode(p.area, p.phone)
+				code := mockCode(p.phone, 4)
+				if !mock {
+					code = cp.last[p]
+				}
+				bad := ""
+				if err != nil {
+					bad = "first send refused: " + err.Error()
+				}
+				for i := 0; i < n && bad == ""; i++ {
+					if l.VerifySMSCode(p.area, p.phone, flip(code), hash) == nil {
+						bad = fmt.Sprintf("wrong code accepted at attempt %d", i+1)
+					}
+				}
+				if bad == "" {
+					if e := l.VerifySMSCode(p.area, p.phone, code, hash); e == nil {
+						bad = fmt.Sprintf("after %d wrong attempts against one sent code (limit %d) the right code was accepted at attempt %d: the attempt counter does not keep counting", n, maxVerify, n+1)
+					}
+				}
+				c.Case(fmt.Sprintf("long/attempts/%v", bad == ""), bad, "attempt limit lifts again after a long run of attempts", func() interface{} { return fmt.Sprintf("mock=%v limit=%d attempts=%d", mock, maxVerify, n) })
+			}
+		}
+	}
+}
+
 func nonce(c *seq.Ctx) {
 	for _, base := range []string{"0123456789", "ab", "x", "0123456789abcdef"} {
 		asked := map[int]bool{}
@@ -319,6 +354,7 @@ func main() {
 		}
 	}
 	jobs = append(jobs, func() { seq.RunFamily(r, seq.Family{Name: "nonce", Run: nonce}) })
+	jobs = append(jobs, func() { seq.RunFamily(r, seq.Family{Name: "long-attempt-histories", Run: longHistories}) })
 	seq.Parallel(16, jobs)
 	r.Finish()
 }
